@@ -401,7 +401,12 @@ def check(ctx):
     par = [a.arg for a in teq.node.args.args]
     rets = [r for r in own_walk(teq.node) if isinstance(r, ast.Return) and r.value is not None and norm(r.value) != "NotImplemented"]
     ctx.need("R11-g", teq, "verdict returns in TaskInfo.__eq__", len(rets), 1)
+    idq = f"{par[0]}.id == {par[1]}.id" if len(par) > 1 else "self.id == other.id"
     for r in rets:
+        if isinstance(r.value, ast.Constant) and isinstance(r.value.value, bool):
+            # the written-out form `if self.id == other.id: return True ... return False`
+            ctx.require_at("R11-g", teq, r, [[idq]] if r.value.value else [[f"not {idq}"]], instance="TaskInfo equality is equality of the task ids", what="verdict")
+            continue
         attrs = {x.attr for x in ast.walk(r.value) if isinstance(x, ast.Attribute) and isinstance(x.value, ast.Name) and x.value.id in par}
         ok = attrs == {"id"} and isinstance(r.value, ast.Compare) and len(r.value.ops) == 1 and isinstance(r.value.ops[0], ast.Eq)
         ctx.ob("R11-g", teq, "TaskInfo equality is equality of the task ids", ok, node=r, by=("self.id == other.id",),
